@@ -1,7 +1,10 @@
 # Driver configuration for property C17 (read by /verif/checks_config.py)
 PROP = dict(
         pkg="c17", level="exploration",
-        technique="scripted-environment PBT (rapid): real l1.Client + real Blockchain driven by a model L1 node; invariants over every observed head + model comparison at count-based quiescence; -race",
+        technique=("scripted-environment PBT (rapid): real l1.Client + real Blockchain driven by a model L1 node, reached either directly "
+                   "(L1StateProvider implemented by the model) or through the real GethL1StateProvider against an in-process Ethereum JSON-RPC "
+                   "node (go-ethereum rpc.Server over a websocket); invariants over every observed head + model comparison at count-based "
+                   "quiescence; -race"),
         level_text=("Exploration: generated L1-node scripts (hundreds per quick run, thousands per thorough run) executed against the real "
                     "concurrent client; per-value invariants checked at every OnNewL1Head / feed value / sampled L1Head() read and the stored head "
                     "compared with a reference model at every quiescent point. Samples the space of scripts and lets the Go scheduler/timers add "
@@ -10,7 +13,13 @@ PROP = dict(
               "canonical chain): mine, deliver queued logs, advance the finalised height, reorg depth 1-4 of the non-finalised suffix (Removed copies of "
               "every delivered log, ascending or descending, then the new logs), subscription error, unreachable node with missed logs, failing "
               "resubscriptions/FinalisedHeight/ChainID/LatestHeight/FilterStateUpdate, chain changes during the catch-up scan, chunk sizes 1-50, closing phase in which finality creeps to the tip block by block, "
-              "restart via Run or CatchUpL1Head (same DB, same or fresh Blockchain). Non-trivial = a Removed copy is delivered for a buffered event, "
+              "restart via Run or CatchUpL1Head (same DB, same or fresh Blockchain). The same scripts also run in geth mode "
+              "(TestProp/TestRaceL1HeadScriptGeth, label via-geth-adapter): the model node answers eth_chainId / eth_blockNumber / "
+              "eth_getBlockByNumber(finalized) / eth_getLogs / eth_subscribe(logs) over a websocket to the real l1.GethL1StateProvider, so logs and "
+              "their removed=true copies (label geth-removed-log) pass through ethclient, the abigen filterer, forwardStateUpdates and "
+              "stateUpdateFromGethContract, injected failures are JSON-RPC errors, and a subscription failure is the node cutting the connection "
+              "(label geth-connection-cut; rpc.Client reconnects, the client resubscribes); the harness waits on stream markers acknowledged at the "
+              "adapter's output, then on counts. Non-trivial = a Removed copy is delivered for a buffered event, "
               "or finality advances past >= 2 buffered L1 blocks at once, or a restart/resubscription happens with a non-empty buffer; distinct = "
               "distinct SHA-256 of the rendered script."),
         assumptions=["the L1 node is well-behaved: finalised height monotone, finalised blocks never reorged, a Removed copy is delivered for every "
@@ -18,6 +27,12 @@ PROP = dict(
                      "logs are delivered in chain order; logs mined while the node is unreachable may be missed (then they are not 'delivered')",
                      "after a failed catch-up scan the documented lag is accepted: 'delivered' means delivered to the running client instance, "
                      "the head stored by earlier instances is the floor",
-                     "GethL1StateProvider (go-ethereum adapter) is not exercised (DESIGN section 6)"],
+                     "geth mode: the provider handed to l1.Client is the real GethL1StateProvider embedded in a tap that relays the "
+                     "subscription (values, error) unchanged, drops the harness's marker logs and records the client's channel; the websocket "
+                     "connection is only cut when nothing the node sent is still inside the adapter and while the client's goroutine is not "
+                     "writing a request (go-ethereum's rpc.Client strands a request whose write races with the connection's death until its "
+                     "30 s context expires: a liveness stall outside this property); notifications lost in flight at a connection loss are "
+                     "therefore not generated",
+                     "trusted base in geth mode: go-ethereum rpc server/client, ethclient, abi packing of the generated logs"],
         runs=[dict(run="^TestProp"), dict(run="^TestRace", race=True)],
     )
